@@ -110,6 +110,15 @@ def seeds(tm):
         with zipfile.ZipFile(bio, "w") as z:
             z.writestr("box.obj", out["obj"] if isinstance(out["obj"], (bytes, bytearray)) else out["obj"].encode())
         out["zip"] = bio.getvalue()
+    # small files from the repository's own corpus: features the exporters never write
+    # (interleaved / strided glTF accessors, primitives, nested nodes, ascii variants)
+    from harness.common import repo_dir
+    for key, fn in (("glb@interleaved", "BoxInterleaved.glb"), ("glb@nested", "nested.glb"), ("glb@cubevc", "cubevc.glb"),
+                    ("gltf@mode5", "mode5.gltf"), ("ply@corpus", "ascii.ply"), ("obj@corpus", "negative_indices.obj"), ("off@corpus", "comments.off")):
+        pth = os.path.join(repo_dir(), "models", fn)
+        if os.path.exists(pth) and os.path.getsize(pth) < 60000:
+            with open(pth, "rb") as fh:
+                out[key] = fh.read()
     res = {}
     for k, v in out.items():
         if isinstance(v, str):
@@ -120,6 +129,7 @@ def seeds(tm):
 
 
 def file_type_of(key):
+    key = key.split("@")[0]
     return {"ply_ascii": "ply"}.get(key, key)
 
 
@@ -128,6 +138,7 @@ TEXT = {"stl_ascii", "off", "obj", "ply_ascii", "xyz", "dxf", "svg", "dae", "glt
 
 def layout(key, data):
     """Split a seed file into NFIELDS fields [(start, end)]: header, count span, body chunks, tail."""
+    key = key.split("@")[0]
     n = len(data)
     count = None
     if key == "stl":
@@ -165,7 +176,7 @@ CLASS_TEXT = {"zero": b"0", "max": b"99999999999", "negative": b"-1"}
 def apply_faults(key, data, faults, rs, others):
     fields = layout(key, data)
     parts = [data[a:b] for a, b in fields]
-    text = key in TEXT
+    text = key.split("@")[0] in TEXT
     for f in faults:
         i = f["f"] - 1
         op = f["op"]
@@ -426,6 +437,13 @@ def main(argv):
         step = max(1, n // (80 if tier == "quick" else 1500))
         for cut in range(0, n, step):
             add(key, data[:cut], {"truncate_bytes": cut})
+        # numeric fields of JSON headers (glTF accessors: byteStride, count, byteOffset, componentType ...)
+        if file_type_of(key) in ("glb", "gltf"):
+            for mnum in list(re.finditer(rb'"(byteStride|count|byteOffset|byteLength|componentType|bufferView|buffer|mode)"\s*:\s*(\d+)', data))[:40]:
+                a, b = mnum.span(2)
+                for val in (b"0", b"1", b"92", b"999999", b"1048576"):
+                    if len(val) <= b - a:
+                        add(key, data[:a] + val.rjust(b - a, b" ") + data[b:], {"json_field": mnum.group(1).decode(), "value": val.decode()})
         # single byte / word corruptions
         for _ in range(40 if tier == "quick" else 600):
             pos = rs.randint(0, n)
